@@ -9,6 +9,7 @@ import Proofs.C16.EllSwiftToy
 import Proofs.C16.Borromean
 import Proofs.C16.ToyExamples
 import Proofs.E2E.C16Raw
+import Proofs.C16.LG
 /-!
 # C16 — property theorems only (see DESIGN.md §3 C16).
 
@@ -154,15 +155,15 @@ example : ∃ pre sig,
 /-- **T5.** Both sides of an ECDH exchange derive the same keying data — for ANY key-derivation
 function of the shared x-coordinate (ANSI-X9.63, HKDF, …), any two private scalars; when the shared
 point is ∞ both sides fail alike. -/
-theorem ecdh_symmetric (L : Lawful o G) (kdf : Bytes → R Bytes) (a b : Int) :
+theorem ecdh_symmetric (L : LawfulGroup o G) (kdf : Bytes → R Bytes) (a b : Int) :
     diffieHellman o kdf a (o.mul b o.gen) = diffieHellman o kdf b (o.mul a o.gen) :=
-  dh_symmetric L kdf a b
+  LG.dh_symmetric L kdf a b
 
 /-- T5 on an arbitrary base point. (This is the group-level symmetry only: `ellswift.xdh`, `encode_var` and
 `decode_var` have NO model here — their agreement is the `ellswift.roundtrip` oracle's, on the real code.) -/
-theorem ecdh_symmetric_base (L : Lawful o G) (kdf : Bytes → R Bytes) (a b : Int) (P : α) :
+theorem ecdh_symmetric_base (L : LawfulGroup o G) (kdf : Bytes → R Bytes) (a b : Int) (P : α) :
     diffieHellman o kdf a (o.mul b P) = diffieHellman o kdf b (o.mul a P) :=
-  dh_symmetric_base L kdf a b P
+  LG.dh_symmetric_base L kdf a b P
 
 /-! ## DLEQ (BIP374) -/
 
@@ -183,51 +184,51 @@ theorem dleq_verify_iff (H : Bytes → Bytes → Bytes) (A B C Gp : α) (proof :
 /-- **T8 (completeness).** For any secret `a`, any nonce `k ∈ 1..n-1`, any generator `G' ≠ ∞`, any
 `B ≠ ∞` and any message, the proof `(e, k + e·a)` verifies for the statement `(a•G', B, a•B)` it was
 made for (`H` any hash with 32-byte digests). -/
-theorem dleq_complete (L : Lawful o G) (H : Bytes → Bytes → Bytes) (hn : o.n ≤ 256 ^ 32)
+theorem dleq_complete (L : LawfulGroup o G) (H : Bytes → Bytes → Bytes) (hn : o.n ≤ 256 ^ 32)
     (hH : ∀ t m, (H t m).length = 32) (a k : Int) (hk0 : 0 < k) (hk1 : k < o.n) (B Gp : α)
     (hB : L.abs B ≠ 0) (hG : L.abs Gp ≠ 0) (msg : Option Bytes) (m : Bytes) (hm : dleqMsg msg = .ok m) :
     dleqVerify o H (o.mul a Gp) B (o.mul a B) (dleqProofOf o H a k B Gp m) Gp msg = .ok () :=
-  dleq_complete_nonce L H hn hH a k hk0 hk1 B Gp hB hG msg m hm
+  LG.dleq_complete_nonce L H hn hH a k hk0 hk1 B Gp hB hG msg m hm
 
 /-- T8: `generate_proof` answers (its built-in self-check never fires) for every in-range secret,
 32-byte aux and admissible message, unless the derived nonce is zero; and what it answers verifies. -/
-theorem dleq_generate_ok (L : Lawful o G) (H : Bytes → Bytes → Bytes) (hn : o.n ≤ 256 ^ 32)
+theorem dleq_generate_ok (L : LawfulGroup o G) (H : Bytes → Bytes → Bytes) (hn : o.n ≤ 256 ^ 32)
     (hH : ∀ t m, (H t m).length = 32) (a : Int) (ha : 0 < a ∧ a < o.n) (B Gp : α)
     (hB : L.abs B ≠ 0) (hG : L.abs Gp ≠ 0) (aux : Bytes) (haux : aux.length = 32) (msg : Option Bytes)
     (m : Bytes) (hm : dleqMsg msg = .ok m)
     (hk : dleqNonce o H a (o.mul a Gp) (o.mul a B) aux m ≠ 0) :
     ∃ π, dleqGenerate o H a B aux Gp msg = .ok π ∧
       dleqVerify o H (o.mul a Gp) B (o.mul a B) π Gp msg = .ok () := by
-  obtain ⟨π, h⟩ := dleq_generate_defined L H hn hH a ha B Gp hB hG aux haux msg m hm hk
+  obtain ⟨π, h⟩ := LG.dleq_generate_defined L H hn hH a ha B Gp hB hG aux haux msg m hm hk
   exact ⟨π, h, dleq_generate_verifies H a B Gp aux msg π h⟩
 
 /-- **T8 (special soundness).** Two accepting transcripts with the same commitments and challenges
 that differ modulo `n` yield a witness `w` with `A = w•G'` and `C = w•B`: a statement with no common
 discrete logarithm is accepted for at most one challenge value (mod n) per commitment pair, i.e.
 only if the hash hits it. -/
-theorem dleq_special_sound (L : Lawful o G) (A B C Gp : α) (e s e' s' : Int)
+theorem dleq_special_sound (L : LawfulGroup o G) (A B C Gp : α) (e s e' s' : Int)
     (h1 : L.abs (o.dmul s Gp (-e) A) = L.abs (o.dmul s' Gp (-e') A))
     (h2 : L.abs (o.dmul s B (-e) C) = L.abs (o.dmul s' B (-e') C))
     (hne : (e - e') % o.n ≠ 0) :
     ∃ w : Int, L.abs A = w • L.abs Gp ∧ L.abs C = w • L.abs B :=
-  dleq_special_soundness L A B C Gp e s e' s' h1 h2 hne
+  LG.dleq_special_soundness L A B C Gp e s e' s' h1 h2 hne
 
 /-! ## Silent payments (BIP352) -/
 
 /-- **T9 (inputs).** The scanner's sum of input public keys — taproot inputs given as the even-y
 point of their x-only key — is the sender's `prv_key_sum` times `G` (so `pub_key_sum` answers, with a
 non-zero point), whatever the mix of taproot / non-taproot inputs and their parities. -/
-theorem sp_input_sums_agree (L : Lawful o G) (keys : List (Int × Bool)) (a : Int)
+theorem sp_input_sums_agree (L : LawfulGroup o G) (keys : List (Int × Bool)) (a : Int)
     (h : prvKeySum o keys = .ok a) :
     0 < a ∧ a < o.n ∧
     ∃ A, pubKeySum o (keys.map fun k => spInputPoint o k.1 k.2) = .ok A ∧ L.abs A = a • L.abs o.gen
       ∧ L.abs A ≠ 0 :=
-  pubKeySum_of_prvKeySum L keys a h
+  LG.pubKeySum_of_prvKeySum L keys a h
 
 /-- **T9 (agreement).** Sender and scanner derive the same input hash and, for the recipient with
 scan key `b_scan`, the same shared secret, hence the same tweak `t_k` for every counter `k`
 (repeated recipients / labels only change which `k` and which `B_m` the tweak is added to). -/
-theorem sp_sender_scanner_agree (L : Lawful o G) (H : Bytes → Bytes → Bytes)
+theorem sp_sender_scanner_agree (L : LawfulGroup o G) (H : Bytes → Bytes → Bytes)
     (keys : List (Int × Bool)) (a : Int) (h : prvKeySum o keys = .ok a)
     (A : α) (hA : pubKeySum o (keys.map fun k => spInputPoint o k.1 k.2) = .ok A)
     (lowest : Bytes) (hh : Int) (hih : inputHash o H lowest (o.mul a o.gen) = .ok hh)
@@ -235,7 +236,7 @@ theorem sp_sender_scanner_agree (L : Lawful o G) (H : Bytes → Bytes → Bytes)
     inputHash o H lowest A = .ok hh ∧
     ∀ k, outputTweak o H (o.mul (hh * a % o.n) (o.mul bScan o.gen)) k
         = outputTweak o H (o.mul bScan (o.mul hh A)) k :=
-  sp_agreement L H keys a h A hA lowest hh hih bScan hb
+  LG.sp_agreement L H keys a h A hA lowest hh hih bScan hb
 
 /-- **T9 (BIP375 shares).** For ANY list of eligible input keys — two or three inputs locked to the
 SAME key included: their equal per-input shares all count — the sum of the per-input ECDH shares
@@ -304,13 +305,13 @@ example (L : Lawful o G) : LabelsOk o L [] := fun _ h => by cases h
 
 /-- **T10 (Pedersen).** Whatever `commit(r, v)` answers, `verify(r, v, ·)` accepts; and `verify`
 accepts a point exactly when it is `r•G + v•H ≠ ∞` (`H` the second generator, any point). -/
-theorem pedersen_commit_verifies (L : Lawful o G) (Hp : α) (r v : Int) (C : α)
+theorem pedersen_commit_verifies (L : LawfulGroup o G) (Hp : α) (r v : Int) (C : α)
     (h : pedersenCommit o Hp r v = .ok C) : pedersenVerify o Hp r v C = true :=
-  pedersen_verify_commit L Hp r v C h
+  LG.pedersen_verify_commit L Hp r v C h
 
-theorem pedersen_verify_characterised (L : Lawful o G) (Hp : α) (r v : Int) (C : α) :
+theorem pedersen_verify_characterised (L : LawfulGroup o G) (Hp : α) (r v : Int) (C : α) :
     pedersenVerify o Hp r v C = true ↔ L.abs C = r • L.abs o.gen + v • L.abs Hp ∧ L.abs C ≠ 0 :=
-  pedersen_verify_iff L Hp r v C
+  LG.pedersen_verify_iff L Hp r v C
 
 /-! ## ECIES (BIE1, `ecc/ecies.py`) -/
 
@@ -359,6 +360,32 @@ example : ∀ k iv m c, (fun (_ _ : Bytes) (m : Bytes) => (Except.ok (m ++ [0]) 
 example : eMagicSize = 4 ∧ eEphSize = 33 ∧ eMacSize = 32 ∧ eBlockSize = 16
     ∧ Gen.Interactive.ECIES_MAGIC = [66, 73, 69, 49] := by decide
 
+/-! ### the `lift_x`-free theorems above (ECDH, DLEQ, Pedersen, BIP352 input sums) are stated over `LawfulGroup` — every
+law of `Lawful` except the two about `lift_x`, which C01 proves for the carrier with NO `p ≡ 3 (mod 4)`; the `Lawful`
+versions are corollaries (`Lawful.toLawfulGroup`) -/
+
+theorem ecdh_symmetric_lawful (L : Lawful o G) (kdf : Bytes → R Bytes) (a b : Int) :
+    diffieHellman o kdf a (o.mul b o.gen) = diffieHellman o kdf b (o.mul a o.gen) :=
+  ecdh_symmetric L.toLawfulGroup kdf a b
+
+theorem dleq_complete_lawful (L : Lawful o G) (H : Bytes → Bytes → Bytes) (hn : o.n ≤ 256 ^ 32)
+    (hH : ∀ t m, (H t m).length = 32) (a k : Int) (hk0 : 0 < k) (hk1 : k < o.n) (B Gp : α)
+    (hB : L.abs B ≠ 0) (hG : L.abs Gp ≠ 0) (msg : Option Bytes) (m : Bytes) (hm : dleqMsg msg = .ok m) :
+    dleqVerify o H (o.mul a Gp) B (o.mul a B) (dleqProofOf o H a k B Gp m) Gp msg = .ok () :=
+  dleq_complete L.toLawfulGroup H hn hH a k hk0 hk1 B Gp hB hG msg m hm
+
+theorem pedersen_commit_verifies_lawful (L : Lawful o G) (Hp : α) (r v : Int) (C : α)
+    (h : pedersenCommit o Hp r v = .ok C) : pedersenVerify o Hp r v C = true :=
+  pedersen_commit_verifies L.toLawfulGroup Hp r v C h
+
+theorem sp_input_sums_agree_lawful (L : Lawful o G) (keys : List (Int × Bool)) (a : Int)
+    (h : prvKeySum o keys = .ok a) :
+    0 < a ∧ a < o.n ∧
+    ∃ A, pubKeySum o (keys.map fun k => spInputPoint o k.1 k.2) = .ok A ∧ L.abs A = a • L.abs o.gen
+      ∧ L.abs A ≠ 0 :=
+  sp_input_sums_agree L.toLawfulGroup keys a h
+
+
 end Props.C16
 
 /-! ## End to end: the same theorems about `Btc.EC.ops C`, no `Lawful` hypothesis
@@ -373,13 +400,13 @@ namespace Props.C16
 open Btc Btc.EC Btc.C01 Btc.E2E Btc.Py Btc.C16
 
 /-- T5 on btclib's arithmetic, any curve -/
-theorem ecdh_symmetric_ec {p : ℕ} [Fact p.Prime] {C : Curve} (K : CurveOk p C) (h34 : p % 4 = 3)
+theorem ecdh_symmetric_ec {p : ℕ} [Fact p.Prime] {C : Curve} (K : CurveOk p C)
     (kdf : Bytes → R Bytes) (a b : ℤ) :
     diffieHellman (EC.ops C) kdf a ((EC.ops C).mul b C.G) = diffieHellman (EC.ops C) kdf b ((EC.ops C).mul a C.G) :=
-  Btc.E2E.ecdh_symmetric_ec K h34 kdf a b
+  Btc.E2E.ecdh_symmetric_ec K kdf a b
 
 /-- T9 (agreement) on btclib's arithmetic, any curve -/
-theorem sp_sender_scanner_agree_ec {p : ℕ} [Fact p.Prime] {C : Curve} (K : CurveOk p C) (h34 : p % 4 = 3)
+theorem sp_sender_scanner_agree_ec {p : ℕ} [Fact p.Prime] {C : Curve} (K : CurveOk p C)
     (H : Bytes → Bytes → Bytes) (keys : List (ℤ × Bool)) (a : ℤ) (h : prvKeySum (EC.ops C) keys = .ok a)
     (A : Point) (hA : pubKeySum (EC.ops C) (keys.map fun k => spInputPoint (EC.ops C) k.1 k.2) = .ok A)
     (lowest : Bytes) (hh : ℤ) (hih : inputHash (EC.ops C) H lowest ((EC.ops C).mul a C.G) = .ok hh)
@@ -387,15 +414,15 @@ theorem sp_sender_scanner_agree_ec {p : ℕ} [Fact p.Prime] {C : Curve} (K : Cur
     inputHash (EC.ops C) H lowest A = .ok hh ∧
     ∀ k, outputTweak (EC.ops C) H ((EC.ops C).mul (hh * a % C.n) ((EC.ops C).mul bScan C.G)) k
         = outputTweak (EC.ops C) H ((EC.ops C).mul bScan ((EC.ops C).mul hh A)) k :=
-  Btc.E2E.sp_sender_scanner_agree_ec K h34 H keys a h A hA lowest hh hih bScan hb
+  Btc.E2E.sp_sender_scanner_agree_ec K H keys a h A hA lowest hh hih bScan hb
 
 /-- T9 (inputs) on btclib's arithmetic, any curve: the scanner's key sum answers and is `==` to `mult a G` -/
-theorem sp_input_sums_agree_ec {p : ℕ} [Fact p.Prime] {C : Curve} (K : CurveOk p C) (h34 : p % 4 = 3)
+theorem sp_input_sums_agree_ec {p : ℕ} [Fact p.Prime] {C : Curve} (K : CurveOk p C)
     (keys : List (ℤ × Bool)) (a : ℤ) (h : prvKeySum (EC.ops C) keys = .ok a) :
     0 < a ∧ a < C.n ∧
     ∃ A, pubKeySum (EC.ops C) (keys.map fun k => spInputPoint (EC.ops C) k.1 k.2) = .ok A ∧
       (EC.ops C).eq A ((EC.ops C).mul a C.G) = true :=
-  Btc.E2E.sp_input_sums_agree_ec K h34 keys a h
+  Btc.E2E.sp_input_sums_agree_ec K keys a h
 
 /-- T2 over `opsSub K`, any curve -/
 theorem musig2_partial_sig_verifies_ec {p : ℕ} [Fact p.Prime] {C : Curve} (K : CurveOk p C) (h34 : p % 4 = 3)
